@@ -992,6 +992,7 @@ _IPUT = f"{INTER}.put"
 _EXE = f"{INTER}._execute_boundary_action"
 _ADD = f"{INTER}.add_inter_port"
 SFILE = "streamflow/workflow/step.py"
+_IMPORT_ITT = "from streamflow.workflow.token import IterationTerminationToken\n"
 
 VARIANTS = [
     # ---- R1
@@ -1037,7 +1038,23 @@ VARIANTS = [
     V("filter port default rejects everything", PFILE, f"{FILTER}.__init__", "lambda _: True", "lambda _: False", "R5"),
     V("filter port forwards twice", PFILE, _FPUT, "super().put(token)", "super().put(token)\n        super().put(token)", "R5"),
     V("filter port forwards everything", PFILE, _FPUT, "elif logger.isEnabledFor(logging.DEBUG):", "else:\n        super().put(token)\n    if logger.isEnabledFor(logging.DEBUG):", "R5"),
+    V("filter port exempts iteration-termination tokens (seeded C03-1: widened class tuple)", PFILE, _FPUT,
+      "isinstance(token, TerminationToken) or", "isinstance(token, (IterationTerminationToken, TerminationToken)) or", "R5", control=True,
+      append=_IMPORT_ITT),
+    V("filter port exempts every token through a widened class tuple", PFILE, _FPUT,
+      "isinstance(token, TerminationToken) or", "isinstance(token, (TerminationToken, Token)) or", "R5"),
+    V("filter port exempts iteration-termination tokens (second class test)", PFILE, _FPUT,
+      "isinstance(token, TerminationToken) or", "isinstance(token, TerminationToken) or isinstance(token, IterationTerminationToken) or", "R5",
+      append=_IMPORT_ITT),
+    V("filter port exempts iteration-termination tokens (early forward)", PFILE, _FPUT,
+      "    if isinstance(token, TerminationToken) or",
+      "    if isinstance(token, IterationTerminationToken):\n        super().put(token)\n        return\n    if isinstance(token, TerminationToken) or", "R5",
+      append=_IMPORT_ITT),
     # ---- R6
+    V("inter port lets iteration-termination tokens skip the boundary rules", PFILE, _IPUT,
+      "if isinstance(token, TerminationToken):", "if isinstance(token, (TerminationToken, IterationTerminationToken)):", "R6", append=_IMPORT_ITT),
+    V("add_inter_port does not replay iteration-termination tokens", PFILE, _ADD,
+      "if not isinstance(t, TerminationToken)]", "if not isinstance(t, (TerminationToken, IterationTerminationToken))]", "R6", append=_IMPORT_ITT),
     V("inter port always delivers locally", PFILE, _IPUT, "if not matched_self:", "if True:", "R6"),
     V("inter port never delivers locally once a boundary fired", PFILE, _IPUT, "if boundary.port is self:\n                    matched_self = True", "matched_self = True", "R6"),
     V("inter port compares with the wrong polarity", PFILE, _IPUT, "if boundary.port is self:", "if boundary.port is not self:", "R6"),
@@ -1078,6 +1095,10 @@ VARIANTS = [
       "admitted = isinstance(token, TerminationToken) or self.filter_function(token)\n    if admitted:", None),
     V("benign: filter port early return", PFILE, _FPUT, "if isinstance(token, TerminationToken) or self.filter_function(token):\n        super().put(token)\n    elif",
       "if isinstance(token, TerminationToken):\n        super().put(token)\n        return\n    if self.filter_function(token):\n        super().put(token)\n    elif", None),
+    V("benign: filter port one-element class tuple", PFILE, _FPUT, "isinstance(token, TerminationToken) or", "isinstance(token, (TerminationToken,)) or", None),
+    V("benign: filter port tests termination through check_termination", PFILE, _FPUT, "isinstance(token, TerminationToken) or", "check_termination(token) or", None,
+      append="from streamflow.workflow.utils import check_termination\n"),
+    V("benign: inter port one-element class tuple", PFILE, _IPUT, "if isinstance(token, TerminationToken):", "if isinstance(token, (TerminationToken,)):", None),
     V("benign: inter port early-continue style", PFILE, _IPUT,
       "if boundary.is_satisfied():\n                self._execute_boundary_action(boundary, token)\n                if boundary.port is self:\n                    matched_self = True",
       "if not boundary.is_satisfied():\n                continue\n            self._execute_boundary_action(boundary, token)\n            matched_self = matched_self or boundary.port is self", None),
